@@ -14,6 +14,19 @@ def run(ctx):
     if r["counters"].get("vectors", 0) == 0:
         raise ToolError("no never-completing-connect vectors")
     done.append({"establishment_timeout_vectors": r["counters"]["vectors"]})
+    # the client-listener timer of a session (Session.tla): never cuts a request in progress, closes an idle session
+    ctx.build("c14s")
+    args = []
+    st = 0
+    for cfg in ("MCSession.s1.cfg", "MCSession.s2.cfg"):
+        t = ctx.tlc("MCSession", cfg, workers=2, timeout=600, require_actions=("Open", "Close", "Tick"))
+        ctx.spec_must_hold(t)
+        args += ["--vectors", t["out"]]
+        st += t["distinct"]
+    rs = ctx.harness("c14s", args, env={"VERIF_ROOT": ROOT}, timeout=1800)
+    if rs["evaluations"] < 100:
+        raise ToolError("session histories did not run")
+    done.append({"session_histories": rs["evaluations"], "session_model_states": st})
     try:
         import c14_handshake
         done.append(c14_handshake.run(ctx))
